@@ -64,11 +64,16 @@ def main():
     try:
         # demo passes without the change
         shutil.copy(demo, os.path.join(REPO, demo_dst))
-        rc, out = sh("go test -vet=off -count=1 -run 'Demo|demo' ./%s" % pkg_dir, cwd=REPO)
+        race = "-race " if prop == "C11" else ""
+        rc, out = sh("go test %s-vet=off -count=1 -run 'Demo|demo' ./%s" % (race, pkg_dir), cwd=REPO)
         meta["demo_passes_without_change"] = rc == 0
         os.remove(os.path.join(REPO, demo_dst))
         # apply
         rc, out = sh("git apply %s" % patch, cwd=REPO)
+        if rc != 0:
+            # the patch was written against an earlier HEAD (before a later fix: commit): merge it
+            rc, out = sh("git apply --3way %s && git reset -q" % patch, cwd=REPO)
+            meta["patch_applied_with_3way_merge"] = rc == 0
         if rc != 0:
             meta["error"] = "patch does not apply: " + out[-500:]
             print(json.dumps(meta, indent=1)); return
@@ -77,7 +82,7 @@ def main():
         if rc != 0:
             meta["tests_output_tail"] = out[-800:]
         shutil.copy(demo, os.path.join(REPO, demo_dst))
-        rc, out = sh("go test -vet=off -count=1 -run 'Demo|demo' ./%s" % pkg_dir, cwd=REPO)
+        rc, out = sh("go test %s-vet=off -count=1 -run 'Demo|demo' ./%s" % (race, pkg_dir), cwd=REPO)
         meta["demo_fails_with_change"] = rc != 0
         os.remove(os.path.join(REPO, demo_dst))
         # run the checks against the patched tree
